@@ -31,13 +31,14 @@ type space struct {
 	rootSugared bool
 	// need: of the sequences over syms only those that use at least one symbol of
 	// this class are run (the others belong to the spaces without those symbols):
-	// "sep" = a name carrying the separator, "slice" = a no-op-field argument or a reused slice
+	// "sep" = a name carrying the separator, "slice" = a no-op-field argument or a reused slice,
+	// "fail" = an argument with a failing marshaler
 	need string
 }
 
 func (s space) wanted(steps []step) bool {
 	for _, st := range steps {
-		if (s.need == "sep" && isSepName(st.sym)) || (s.need == "slice" && isSliceSym(st.sym)) {
+		if (s.need == "sep" && isSepName(st.sym)) || (s.need == "slice" && isSliceSym(st.sym)) || (s.need == "fail" && isFailSym(st.sym)) {
 			return true
 		}
 	}
@@ -59,6 +60,9 @@ func (s space) String() string {
 	}
 	if s.need == "sep" {
 		return fmt.Sprintf("depth=%d x %d symbols (%s) x %s root: those of the %d sequences that contain >=1 name with a '.'", s.depth, len(s.syms), s.symLabel, r, s.size())
+	}
+	if s.need == "fail" {
+		return fmt.Sprintf("depth=%d x %d symbols (%s) x %s root: those of the %d sequences that contain >=1 *NSFail/*ArrFail symbol", s.depth, len(s.syms), s.symLabel, r, s.size())
 	}
 	if s.need == "slice" {
 		return fmt.Sprintf("depth=%d x %d symbols (%s) x %s root: those of the %d sequences that contain >=1 *Skip/*NilErr/Again* symbol", s.depth, len(s.syms), s.symLabel, r, s.size())
@@ -351,6 +355,17 @@ func main() {
 			spaces = append(spaces, space{d, sliceSet, "slices: " + symList(sliceSet), sug, "slice"})
 		}
 	}
+	// arguments with a failing marshaler behind an open namespace / between ordinary fields:
+	// depth 1..3 from a plain root, depth 1..2 from a sugared root (thorough: 1..3 both)
+	failSet := append(pick("With1", "WithNS", "Toggle"), failSyms...)
+	for _, sug := range []bool{false, true} {
+		for d := 1; d <= 3; d++ {
+			if d == 3 && sug && !run.Thorough() {
+				continue
+			}
+			spaces = append(spaces, space{d, failSet, "failing: " + symList(failSet), sug, "fail"})
+		}
+	}
 	if !run.Thorough() {
 		spaces = append(spaces, space{4, reduced8, "reduced-8: " + symList(reduced8), false, ""})
 	} else {
@@ -440,8 +455,8 @@ func main() {
 				if fam >= famJSONDyn && sp.depth > dynMaxDepth {
 					continue
 				}
-				if fam == famTeeJJ && !run.Thorough() && sp.need != "slice" && sp.depth > 2 {
-					continue // quick tier: tee(json,json) on the slices spaces and on depth<=2 of the others
+				if fam == famTeeJJ && !run.Thorough() && sp.need != "slice" && sp.need != "fail" && sp.depth > 2 {
+					continue // quick tier: tee(json,json) on the slices and failing spaces and on depth<=2 of the others
 				}
 				for k, sn := range names {
 					sc := scheds[k]
@@ -486,12 +501,13 @@ func main() {
 	for _, s := range fullSyms {
 		symNames = append(symNames, s.name)
 	}
-	for _, s := range append(append([]symbol(nil), sepNameSyms...), sliceSyms...) {
+	for _, s := range append(append(append([]symbol(nil), sepNameSyms...), sliceSyms...), failSyms...) {
 		symNames = append(symNames, s.name+" (own space)")
 	}
 	run.Assume = []string{
 		"dynamic-level families: one AtomicLevel under the json core / under both tee branches is set to FatalLevel+1 (nothing enabled) immediately before every derive event and to Debug immediately before every log event; the oracle is exactly that of the json / tee(json,observer) family",
 		"field arguments: With1 = one Int64; With3 = Int64,String,Int64; WithNS = Namespace + Int64; WithMut = Object(mutable marshaler) + Int64; *Skip = zap.Skip(),Int64,Int64; *NilErr = Int64,zap.NamedError(k,nil),String (both no-op fields render nothing in json/console, an observer context keeps them as given; sugared calls pass them as typed Fields); Again* = With/WithLazy/WithOptions(Fields) called with the very slice object that was handed to the latest earlier field step (a fresh [Int64] if there is none) - the fields are the same, their marshalers are evaluated anew for the step; keys are unique per step except under Again*;",
+		"failing marshalers: *NSFail = Namespace, Object(o, marshaler that adds k=1 and then returns the error 'boom'), Int64; *ArrFail = Int64, Array(a, marshaler that appends 1 and then returns 'boom'), String. Reference (documented in Field.AddTo / the encoders): the value as far as it got, properly closed ({\"k\":1} / [1]), followed by \"<key>Error\":\"boom\", all inside the namespaces open at that point; the namespace stays open for the fields that follow and for descendants; an observer context keeps the Field as given",
 		"caller's-slice oracle: every []Field / []interface{} handed to With, WithLazy, WithOptions(Fields(...)), Info and Infow is compared after the call with what the caller put in (Field by Field: Key, Type, Integer, String, Interface identity; spare capacity still zero), and the derivation slices again at the end of the program (lazy cores retain them)",
 		"tee(json,json): both sinks are checked against the same reference; a marshaler is evaluated by each branch, so no evaluation count is demanded there",
 		"(continued) names from {\"\",\"a\",\"b\"} plus, in the 'names' spaces, {\".a\",\"a.\",\".\",\"a.b\"}; sugared With/WithLazy receive key/value pairs (the namespace as a typed Field)",
@@ -506,7 +522,7 @@ func main() {
 		"traces_validated_against_impl":      cases,
 		"evaluations":                        cases,
 		"distinct_nontrivial":                nontrivial,
-		"rule":                               "a program = root kind + sequence of (parent index among nodes so far, symbol); symbols = {With,WithLazy,WithOptions(Fields)} x {1 field, 3 fields, Namespace+field, mutable marshaler+field, Skip+2 fields, field+nil-error+field, the previous step's slice object again}, Named x {'','a','b','.a','a.','.','a.b'}, Sugar/Desugar; every program of each listed space is run under the core families (8 static ones on every space; the 2 dynamic-level ones up to dynamic_level_families_up_to_depth; tee(json,json) likewise in the thorough tier, in the quick tier on the 'slices' spaces and on depth<=2 of the other spaces) x the use orders; states = distinct reference node states (root kind + symbols along the derivation path, i.e. field path and name); distinct_nontrivial = distinct programs with >=2 steps of which >=1 adds context; evaluations = (program, family, use order) cases executed",
+		"rule":                               "a program = root kind + sequence of (parent index among nodes so far, symbol); symbols = {With,WithLazy,WithOptions(Fields)} x {1 field, 3 fields, Namespace+field, mutable marshaler+field, Skip+2 fields, field+nil-error+field, Namespace+failing Object+field, field+failing Array+field, the previous step's slice object again}, Named x {'','a','b','.a','a.','.','a.b'}, Sugar/Desugar; every program of each listed space is run under the core families (8 static ones on every space; the 2 dynamic-level ones up to dynamic_level_families_up_to_depth; tee(json,json) likewise in the thorough tier, in the quick tier on the 'slices' and 'failing' spaces and on depth<=2 of the other spaces) x the use orders; states = distinct reference node states (root kind + symbols along the derivation path, i.e. field path and name); distinct_nontrivial = distinct programs with >=2 steps of which >=1 adds context; evaluations = (program, family, use order) cases executed",
 		"samples":                            samples,
 		"exhaustive":                         true,
 		"programs":                           programs,
